@@ -7,7 +7,7 @@ import AbraModel.Drv.Compile
                                payload p ∈ int:<n> | str:<hex> | nil
                                → `C <text>` / `B <text>` (ControlFlow), `V <text>` (a value), `panic`
    `trylower <residualArgs> <retNargs>` → the six instructions of `tryCode` in the cgen spelling, jump relative -/
-namespace Abra.Drv
+namespace Abra.Drv.BG9
 open Abra.Sem Abra.TryLower
 
 def parsePayload : List String → Option Sem.Val
@@ -34,6 +34,12 @@ def preludeFn : String → Option FnDef
   | _ => none
 
 def renderV (v : Sem.Val) : String := (render 20 #[] v).getD "?"
+
+end Abra.Drv.BG9
+
+namespace Abra.Drv
+open Abra.Drv.BG9
+open Abra.Sem Abra.TryLower
 
 def handlePrelude : List String → String
   | [f, w] =>
